@@ -19,7 +19,8 @@ META = dict(
     text="Every size value below 2^12 (2^15 thorough), every encoded-length boundary 2^(7k)-1, 2^(7k), 2^(7k)+1 (k=1..9), "
          "byte boundaries, 2^63, 2^64-1 and seeded 64-bit values are encoded and decoded by the real code and compared "
          "with the bytes, length, size hint, value and consumed count TLC computed; the vint decoder is driven over every "
-         "first byte x 3 fillings x every length 0..11. For 84 monomorphic types (nesting depth 2) TLC enumerates "
+         "first byte x 3 fillings x every length 0..11. For 106 monomorphic types (nesting depth 2, including collections "
+         "whose elements encode to zero bytes, last in the input and followed by other data) TLC enumerates "
          "representative values, every truncation and every single-byte corruption from {0,1,2,0x7F,0x80,0xC0,0xFF} of "
          "their encodings plus raw inputs (all bool/Option tags, UTF-8 boundary families, non-minimal and oversized length "
          "prefixes, unsorted/duplicate set and map entries) and the real decoders must return exactly the specified value "
@@ -27,7 +28,8 @@ META = dict(
     note="Representative values per type, not all values; single-byte corruptions only; 64-bit platform (every u64 size "
          "value fits usize, the 'does not fit the platform' error cannot occur); error kinds are gated only up to the set "
          "the specification allows (first sequential error, plus InvalidValue for length prefixes exceeding the input, plus "
-         "EOF for invalid input that is also too short); get_size_hint is gated for usize only (elsewhere it is documented "
+         "EOF for invalid input that is also too short); inputs announcing more than 1024 elements of a zero-sized type "
+         "are outside the generated space (the decoder iterates that many times: hang-freedom is C05's business); get_size_hint is gated for usize only (elsewhere it is documented "
          "as an estimate); which of two map entries with equal keys survives is not gated; the real code runs in a "
          "forked worker with a 4 GiB address-space limit (an allocation abort is an outcome, not a harness crash). bool has no Serializable impl: it is exercised "
          "through write_bool/read_bool by a one-line wrapper in the harness.",
@@ -215,7 +217,21 @@ def run(ck, tier):
 
     types_rt = {type_name(s["ty"]) for s in codec if s["kind"] == "rt"}
     types_all = {type_name(s["ty"]) for s in codec}
-    ck.require(len(types_rt) >= 84, "codec generator covers only %d types" % len(types_rt))
+    ck.require(len(types_rt) >= 106, "codec generator covers only %d types" % len(types_rt))
+    # collections of elements that encode to zero bytes: last in the input, and followed by other data
+    def has(tyname, **kw):
+        return any(type_name(s["ty"]) == tyname and all(s[k] == v for k, v in kw.items()) for s in codec)
+    for tyname, inp in (("vec<unit>", [7]), ("vec<unit>", [7, 170, 1]), ("[unit;4]", []), ("[unit;4]", [170, 1]),
+                        ("vec<[u16;0]>", [7]), ("set<unit>", [3]), ("set<unit>", [7]), ("map<unit,[u8;0]>", [3]),
+                        ("map<unit,[u8;0]>", [7]), ("opt<unit>", [1])):
+        ck.require(has(tyname, input=inp) and next(s for s in codec if type_name(s["ty"]) == tyname and s["input"] == inp)["exp"]["t"] == "ok",
+                   "zero-sized-element case %s %s missing or not expected to decode" % (tyname, inp))
+    for tyname in ("(u8,vec<unit>)", "(vec<unit>,u8)", "(unit,vec<unit>,unit)", "(u8,[unit;4])", "([unit;4],u8)",
+                   "vec<vec<unit>>", "opt<vec<unit>>", "[vec<unit>;2]", "map<u8,vec<unit>>", "(set<unit>,map<unit,[u8;0]>)"):
+        ck.require(sum(1 for s in codec if s["kind"] == "rt" and type_name(s["ty"]) == tyname) >= 3,
+                   "zero-sized-element type %s has no round trips" % tyname)
+    excluded = rc_.tagged("EXCLUDED")
+    ck.require(len(excluded) < len(codec) // 50, "too many cases excluded for announcing > 1024 zero-sized elements: %d" % len(excluded))
     missing = types_all - menu
     if missing:
         raise vf.ToolError("types of the specification's menu missing in the harness menu: %s" % sorted(missing))
@@ -253,7 +269,8 @@ def run(ck, tier):
     if binary_dev:      # the oversized-prefix cases already ran above
         replay_scenarios(ck, binary_dev, "vint-dev-profile", vint)
         replay_scenarios(ck, binary_dev, "codec-dev-profile", codec, ["--skip-big"])
-    ck.part("codec", case_kinds=kinds, expected_verdicts=verdicts, oversized_length_prefix_cases=nbig)
+    ck.part("codec", case_kinds=kinds, expected_verdicts=verdicts, oversized_length_prefix_cases=nbig,
+            excluded_cases_announcing_more_than_1024_zero_sized_elements=len(excluded))
 
     ck.bounds = {
         "vint_values": "all v < %d; 2^(7k)-1,2^(7k),2^(7k)+1 k=1..9; 2^(8j)-1,2^(8j),2^(8j)+1 j=1..7; 2^63; 2^64-2; 2^64-1; %d seeded" % (small, nrand),
